@@ -1080,6 +1080,12 @@ func (c *Client) dialAndConnect(config *Config) (net.Conn, *bufio.Reader, error)
 // from zero. Each sequence number is one less than the respective accept count
 // was at the time.
 func (c *Client) resend(conn net.Conn, seqNoOffset uint, seq *seq, space uint) error {
+	// An acknowledgement may arrive before the submission returns. When
+	// the write failed nevertheless, then submitN is behind for good.
+	if seq.submitN < seqNoOffset {
+		seq.submitN = seqNoOffset
+	}
+
 	for seqNo := seqNoOffset; seqNo < seq.acceptN; seqNo++ {
 		key := seqNo&publishIDMask | space
 		packet, err := c.persistence.Load(uint(key))
